@@ -512,26 +512,81 @@ class Check(PropertyCheck):
 
     # ------------------------------------------------------------------ model tie
     def _line(self, case, triple):
+        """the abstract (Boolean credential) model line"""
         cookie, bearer, token = triple
         m = case["method"] if case["method"] in METHODS else "other"
         sfs = {None: "absent", "same-origin": "same-origin", "none": "none"}.get(case["sfs"], "other")
         x = int(case["xsrf"] in ("ok-header", "ok-arg"))
         return f"req {case['route']} {m} {cookie} {bearer} {token} {sfs} {x}"
 
+    # ---- the concrete (raw header text) history lines.  Passwords are named symbolically ("tok0", "pw-A", "$A0"): the
+    # model only compares them for equality and asks `verify` (answers listed per request: the texts argon2 accepts)
+    @staticmethod
+    def _hx(t): return hx(t.encode()) if t else "-"
+
+    def _hreq(self, st, i, pwtext, ver):
+        auth, tok, ck = "none", "absent", "-"
+        for part in st["cred"].split("+"):
+            if part == "h-wrong": auth = self._hx("Bearer WRONG")
+            elif part == "h-basic": auth = self._hx("Basic tok0")
+            elif part == "h-lower": auth = self._hx("bearer tok0")
+            elif part == "h-empty": auth = self._hx("Bearer")
+            elif part == "h-2sp": auth = self._hx("Bearer  tok0")
+            elif part == "h-valid": auth = self._hx("Bearer tok0")
+            elif part == "q-wrong": tok = "t" + self._hx("WRONG")
+            elif part == "q-undecodable": tok = "undecodable"
+            elif part == "q-empty": tok = "t-"
+            elif part == "q-valid": tok = "t" + self._hx("tok0")
+            elif part == "c-valid": ck = "99"
+            elif part.startswith("hb:"): auth = self._hx("Bearer " + pwtext(part[3:]))
+            elif part.startswith("qt:"): tok = "t" + self._hx(pwtext(part[3:]))
+            elif part.startswith("ck:"): ck = part[3:]
+        m = st["method"] if st["method"] in METHODS else "other"
+        sfs = {None: "absent", "same-origin": "same-origin", "none": "none"}.get(st["sfs"], "other")
+        x = int(st["xsrf"] in ("ok-header", "ok-arg"))
+        return f"hreq {st['route']} {m} {ck} {auth} {tok} {sfs} {x} {i} {ver}"
+
+    def _hist_lines(self, case):
+        pwtext = lambda n: {"A": "pw-A", "B": "pw-B"}.get(n, n)
+        if case.get("kind") != "seq":
+            return ["hreset %s %s" % (self._hx("tok0"), "99" if "c-valid" in case["cred"].split("+") else "-"),
+                    self._hreq(case, 0, pwtext, "-")]
+        lines, ver, ntok = ["hreset %s -" % self._hx("tok0")], "-", 0
+        for i, st in enumerate(case["steps"]):
+            if st["op"] == "set":
+                kind, x = st["cfg"]
+                if kind == "tok":
+                    ntok += 1; lines.append("hset - %s 1" % self._hx("tok%d" % ntok)); ver = "-"
+                elif kind == "plain":
+                    lines.append("hset %s %s 1" % (self._hx(pwtext(x)), self._hx("unused"))); ver = "-"
+                else:
+                    lines.append("hset %s %s 1" % (self._hx("$%s%d" % (x, st.get("salt", 0))), self._hx("unused"))); ver = self._hx(pwtext(x))
+            else:
+                lines.append(self._hreq(st, i, pwtext, ver))
+        return lines
+
     def model_lines(self, case):
         if case.get("kind") == "seq":
             reqs = [st for st in case["steps"] if st["op"] == "req"]
-            return [self._line(st, tr) for st, tr in zip(reqs, self._seq_truth(case))]
-        return [self._line(case, self._abstract(case))]
+            return [self._line(st, tr) for st, tr in zip(reqs, self._seq_truth(case))] + self._hist_lines(case)
+        return [self._line(case, self._abstract(case))] + self._hist_lines(case)
 
     def model_obs(self, case, replies):
-        return list(replies) if case.get("kind") == "seq" else replies[0]
+        # [abstract model per request ..., raw-text history model per request ...]
+        if case.get("kind") == "seq":
+            n = sum(1 for st in case["steps"] if st["op"] == "req")
+            hist = [r for l, r in zip(self._hist_lines(case), replies[n:]) if l.startswith("hreq")]
+            bad = [r for l, r in zip(self._hist_lines(case), replies[n:]) if not l.startswith("hreq") and r != "ok"]
+            return list(replies[:n]) + hist + bad
+        return [replies[0], replies[2]] + ([replies[1]] if replies[1] != "ok" else [])
 
     def impl_view(self, case, obs):
         if case.get("kind") == "seq":
             reqs = [st for st in case["steps"] if st["op"] == "req"]
-            return [self._view_one(st, o) for st, o in zip(reqs, obs["seq"])]
-        return self._view_one(case, obs)
+            v = [self._view_one(st, o) for st, o in zip(reqs, obs["seq"])]
+            return v + v
+        v = self._view_one(case, obs)
+        return [v, v]
 
     def _view_one(self, case, obs):
         r = self._routes()[case["route"]]
